@@ -118,6 +118,9 @@ func runC10(rep *TReport, raw json.RawMessage) {
 		}
 	case "body_id_only":
 		f.Set("client_id", id)
+	case "basic_body_other":
+		req.SetBasicAuth(url.QueryEscape(id), url.QueryEscape(secret))
+		f.Set("client_id", "Y")
 	case "both":
 		req.SetBasicAuth(url.QueryEscape(id), url.QueryEscape(secret))
 		f.Set("client_id", id)
@@ -149,6 +152,13 @@ func runC10(rep *TReport, raw json.RawMessage) {
 		res = o.Res
 		if o.Res != "ok" {
 			rep.cmp(raw, "tokens_in_refused_response", 0, o.New["at"]+o.New["rt"], false)
+		} else if o.New["at"] > 0 { // the token belongs to the client that was authenticated, not to one merely named
+			ats, _ := w.Probe()
+			for _, x := range ats {
+				if x.ID == o.New["at"] {
+					rep.cmp(raw, "client_of_issued_token", "X", x.Client, false)
+				}
+			}
 		}
 	case "revoke":
 		f.Set("token", w.tok("rt", rtID))
